@@ -21,7 +21,8 @@ LEVEL_TEXT = ('All rooted ordered section trees with up to 3 (quick) / 4 (thorou
               'placement with every target on those trees including mixed argument lists; every sequence up to 4 / 5 of temporary-symbol '
               'definitions and references; every sequence up to 3 / 4 of EQU/SET/label/=/:= definitions; every PUSHV/POPV sequence up to 4 / 5 over '
               'two named stacks and the default stack; case variants with and without -U. Each resolved value is read from the code file.'
-              ' Symbols defined with -D are looked up with -U given before and after them.')
+              ' Symbols defined with -D are looked up with -U given before and after them.'
+              ' Added in the last round: scope-opening definitions written as EQU/SET/=; body-local labels against section symbols of the same name at depths 0..3.')
 LEVEL_NOTE = ('Trusted: resolver model written from the manual. Out of domain (crash oracle only): backward nameless reference without a '
               'definition, dotted temporaries before any ordinary label, stacks left non-empty at the end of a pass.')
 RULE = 'see LEVEL_TEXT; non-trivial = program contains at least one reference whose value was compared or one expected error'
